@@ -376,5 +376,13 @@ def post(prop, tier, seed, plan_, results, cases_file, workdir, stats):
                     res["failing"].append((cid, "expansion differs between processes (run %d, %d threads, shuffled order)" % (k, threads)))
                     break
         res["coverage"]["reruns"] = runs
+        # rustc side: the same programs expanded by two separate compiler processes
+        import probes
+        bins = ["p_c03_sigs", "p_c16_patterns"] if tier == "quick" else \
+            [b for b in probes.all_bins() if b.startswith("p_")]
+        diffs, info = probes.expand_twice(bins, workdir)
+        res["coverage"]["rustc_expansions"] = info
+        for b, why, src in diffs:
+            res["failing"].append(("probe:" + b, why))
         res["coverage"]["histories"] = "each rerun is a fresh process expanding the same corpus in a different order on a different number of threads"
     return res
